@@ -38,6 +38,10 @@ type AbortCase struct {
 	// context's error and the bus stays in service: the publishes that
 	// follow are recorded like the ones before.
 	ShutdownAt int `json:"shutdown_at,omitempty"`
+	// Echo: for these event ids a context-aware handler publishes the value
+	// it received once more, with the context it was given (a retry, a
+	// re-emitted tick).  Equal values are still two publishes: two records.
+	Echo []int `json:"echo,omitempty"`
 }
 
 type gateEv struct {
@@ -70,6 +74,13 @@ func GenAbort(t *rapid.T) *AbortCase {
 		c.Publishers = rapid.IntRange(2, 4).Draw(t, "publishers")
 	}
 	c.AsyncH = rapid.IntRange(0, 2).Draw(t, "asyncH") == 0
+	if rapid.IntRange(0, 2).Draw(t, "echoing") == 0 {
+		for id := 1; id <= c.N; id++ {
+			if rapid.IntRange(0, 2).Draw(t, "echo") == 0 {
+				c.Echo = append(c.Echo, id)
+			}
+		}
+	}
 	if rapid.IntRange(0, 2).Draw(t, "shutdown") == 0 {
 		c.ShutdownAt = rapid.IntRange(1, c.N).Draw(t, "shutdownAt")
 	}
@@ -125,7 +136,12 @@ func RunAbort(c *AbortCase) *vkit.Outcome {
 		bus.SetPanicHandler(ph)
 	}
 	delivered := map[int]int{}
-	inHandler := func(id int) {
+	pubCount := map[int]int{} // publishes started per id (the echo is a second one)
+	echo := map[int]bool{}
+	for _, id := range c.Echo {
+		echo[id] = true
+	}
+	inHandler := func(id int, async bool) {
 		all, err := readAll(store)
 		if err != nil {
 			fail("handler of event %d: reading the store failed: %v", id, err)
@@ -137,22 +153,38 @@ func RunAbort(c *AbortCase) *vkit.Outcome {
 				n++
 			}
 		}
-		if n != 1 {
+		mu.Lock()
+		wantN := pubCount[id]
+		mu.Unlock()
+		if (!async && n != wantN) || (async && (n < 1 || n > wantN)) {
 			why := ""
 			if abort[id] {
 				why = fmt.Sprintf(" (the %s hook panicked for this event)", c.PanicIn)
 			}
-			fail("a handler received event %d%s and found %d records of it in the store (%d records in all): the record must be readable before any handler of the publish runs", id, why, n, len(all))
+			fail("a handler received event %d%s and found %d records of it in the store (%d records in all) after %d publishes of that value had begun: the record must be readable before any handler of the publish runs", id, why, n, len(all), wantN)
 		}
 	}
+	echoed := map[int]bool{}
+	eventbus.SubscribeContext(bus, func(ctx context.Context, e Plain) {
+		mu.Lock()
+		again := echo[e.ID] && !echoed[e.ID] && !abort[e.ID]
+		if again {
+			echoed[e.ID] = true
+			pubCount[e.ID]++
+		}
+		mu.Unlock()
+		if again {
+			eventbus.PublishContext(bus, ctx, e)
+		}
+	})
 	eventbus.Subscribe(bus, func(e Plain) {
 		mu.Lock()
 		delivered[e.ID]++
 		mu.Unlock()
-		inHandler(e.ID)
+		inHandler(e.ID, false)
 	})
 	if c.AsyncH {
-		eventbus.Subscribe(bus, func(e Plain) { inHandler(e.ID) }, eventbus.Async())
+		eventbus.Subscribe(bus, func(e Plain) { inHandler(e.ID, true) }, eventbus.Async())
 	}
 	gate := make(chan struct{})
 	shutdownErr := error(nil)
@@ -175,6 +207,9 @@ func RunAbort(c *AbortCase) *vkit.Outcome {
 			reached[id] = true
 			mu.Unlock()
 		}()
+		mu.Lock()
+		pubCount[id]++
+		mu.Unlock()
 		eventbus.Publish(bus, Plain{ID: id, S: "abort"})
 	}
 	if c.Publishers > 1 {
@@ -227,8 +262,8 @@ func RunAbort(c *AbortCase) *vkit.Outcome {
 	for id := 1; id <= c.N; id++ {
 		switch {
 		case !abort[id]:
-			if records[id] != 1 || delivered[id] != 1 {
-				o.Failf("", "options %v: event %d (no hook panicked for it) has %d records and %d deliveries, expected one each", c.Options, id, records[id], delivered[id])
+			if records[id] != pubCount[id] || delivered[id] != pubCount[id] {
+				o.Failf("", "options %v: event %d (no hook panicked for it, %d publishes of that value) has %d records and %d deliveries", c.Options, id, pubCount[id], records[id], delivered[id])
 				return o
 			}
 		case preAbort:
